@@ -275,6 +275,31 @@ class _Fold(ast.NodeTransformer):
         return node
 
 
+def _entailed(test, conds):
+    """True/False when the path conditions already decide `test`: the same test was taken before, or the test asks whether
+    X is None while `isinstance(X, T)` holds on this path"""
+    tt = unparse(test)
+    for t, pol in conds:
+        if unparse(t) == tt:
+            return pol
+        if isinstance(t, ast.UnaryOp) and isinstance(t.op, ast.Not) and unparse(t.operand) == tt:
+            return not pol
+        if isinstance(test, ast.UnaryOp) and isinstance(test.op, ast.Not) and unparse(test.operand) == unparse(t):
+            return not pol
+    if isinstance(test, ast.Compare) and len(test.ops) == 1 and isinstance(test.ops[0], (ast.Is, ast.IsNot)) and \
+            isinstance(test.comparators[0], ast.Constant) and test.comparators[0].value is None:
+        x = unparse(test.left)
+        for t, pol in conds:
+            if pol and isinstance(t, ast.Call) and isinstance(t.func, ast.Name) and t.func.id == "isinstance" and \
+                    len(t.args) == 2 and unparse(t.args[0]) == x:
+                return isinstance(test.ops[0], ast.IsNot)
+    if isinstance(test, ast.Compare) and len(test.ops) == 1 and isinstance(test.ops[0], (ast.Is, ast.IsNot)) and \
+            isinstance(test.left, ast.Constant) and test.left.value is None and \
+            isinstance(test.comparators[0], ast.Constant) and test.comparators[0].value is None:
+        return isinstance(test.ops[0], ast.Is)
+    return None
+
+
 def run_paths(stmts, env=None, max_paths=256, decide=None, inline=None, fold=None, depth=3):
     """decide(test_ast) -> True/False/None lets the caller prune branches whose test it can evaluate.
     inline: {name | "self.name": FunctionDef | Lambda | Dict literal}: callees that may be expanded (bounded by `depth`);
@@ -455,6 +480,10 @@ def run_paths(stmts, env=None, max_paths=256, decide=None, inline=None, fold=Non
                 verdict = decide(test) if decide is not None else None
                 if verdict is None and isinstance(test, ast.Constant) and isinstance(test.value, (bool, int)):
                     verdict = bool(test.value)
+                if verdict is None:
+                    verdict = _entailed(test, conds)
+                    if verdict is not None:
+                        test = ast.Constant(value=verdict)      # decided by the path: not an open condition
                 if verdict is not False:
                     go(list(s.body) + rest, 0, env, conds + [(test, True)], effects)
                 if verdict is not True:
